@@ -7,6 +7,7 @@ A case = (property, group, kind, request lines, tags).  `judge` receives the har
 and returns violation records; it runs in worker processes.
 """
 import math
+import os
 import multiprocessing as mpx
 import random
 
@@ -61,6 +62,42 @@ def V(prop, group, op, output, tags, line, what, err, tol):
 
 def mpl(vals):
     return [mpf(v) for v in vals]
+
+
+C11_OPS = {"exp": ("T", ("repsize", [("dof", "dof")])), "log": ("G", ("dof", [("dof", "dof")])),
+       "inverse": ("G", ("repsize", [("dof", "dof")])), "compose": ("GG", ("repsize", [("dof", "dof")] * 2)),
+       "between": ("GG", ("repsize", [("dof", "dof")] * 2)), "rplus": ("GT", ("repsize", [("dof", "dof")] * 2)),
+       "lplus": ("GT", ("repsize", [("dof", "dof")] * 2)), "rminus": ("GG", ("dof", [("dof", "dof")] * 2)),
+       "lminus": ("GG", ("dof", [("dof", "dof")] * 2)), "act": ("GP", ("dim", [("dim", "dof"), ("dim", "dim")])),
+       "adj": ("G", (None, [("dof", "dof")])), "rjac": ("T", (None, [("dof", "dof")])), "ljac": ("T", (None, [("dof", "dof")])),
+       "rjacinv": ("T", (None, [("dof", "dof")])), "ljacinv": ("T", (None, [("dof", "dof")])),
+       "smallAdj": ("T", (None, [("dof", "dof")])), "hat": ("T", (None, [("alg", "alg")])),
+       "transform": ("G", (None, [("tsize", "tsize")])), "innerWeights": ("", (None, [("dof", "dof")])),
+       "bracket": ("TT", ("dof", []))}
+
+
+def c11_case_at(prop, group, op, a, mask, tags):
+    """the bundle-versus-elements comparison at one recorded input (directed search of C05/C11 on bundles)"""
+    import l1
+    els = group[2:].split(",")
+    E = [gen.GROUPS[e] for e in els]
+    sig, shape = C11_OPS[op]
+    keys = {"G": "repsize", "T": "dof", "P": "dim"}
+    parts, o = [], 0
+    for ch in sig:
+        n = sum(e[keys[ch]] for e in E)
+        vec, res, k = a[o:o + n], [], 0
+        for e in E:
+            res.append(vec[k:k + e[keys[ch]]])
+            k += e[keys[ch]]
+        parts.append(res)
+        o += n
+    for e, nm in zip(E, els):
+        e.setdefault("alg", l1.ALG[nm])
+    reqs = [gen.req(True, "o", group, op, mask, a[:o])]
+    for i, nm in enumerate(els):
+        reqs.append(gen.req(True, "o", nm, op, mask, [x for p in parts for x in p[i]]))
+    return dict(prop=prop, group=group, kind="c11", op=op, shape=shape, reqs=reqs, tags=tags + ["mask%d" % mask], mask=mask)
 
 
 # ------------------------------------------------------------------ judges
@@ -667,6 +704,10 @@ def j_c16(case, resps):
     TZ = g.T(mpl(Z))
     Tp = [g.T(mpl(p)) for p in pts]
     s = lin_scale(grp, Z, *pts)
+    # The stopping rule and the geodesic radius are in tangent units whatever the absolute coordinates are, so the
+    # tolerances grow with the coordinate scale s only up to s = 100; beyond that only rounding (~1e-16 s, measured
+    # <= 1e-14 s on the unchanged tree) is added.  (A cloud at UTM-like coordinates must still be averaged.)
+    sc = min(s, 100.0)
 
     def radius(Ts):
         """the property's precondition: the set lies within a moderate geodesic radius"""
@@ -711,20 +752,20 @@ def j_c16(case, resps):
                 L = g.log(Tmi * T_)
                 acc = [a + b for a, b in zip(acc, L)]
             resid = max(abs(a) / n for a in acc)
-            tol = 10 * sq * s
+            tol = 10 * sq * sc + 1e-12 * s
             if resid > tol:
                 out.append(V("C16", grp, op, "stationary", case["tags"], line, "mean of log(m^-1 X_i) not ~0", resid, tol))
-        tolq = 1e-6 * s * s
+        tolq = 1e-6 * sc * sc + 1e-11 * s
         d = oracle.maxdiff(g.T(mpl(mperm)), Tm)
         if d > tolq * (100 if op == "avg_w" else 1):      # "1e-4" for the weighted average
             out.append(V("C16", grp, op, "order", case["tags"], case["reqs"][k - 3], "average depends on the order of the points", d, tolq))
         d = oracle.maxdiff(g.T(mpl(mleft)), TZ * Tm)
-        if d > tolq * s:
-            out.append(V("C16", grp, op, "left-equivariance", case["tags"], case["reqs"][k - 2], "avg(Z X_i) != Z avg(X_i)", d, tolq * s))
+        if d > tolq * sc:
+            out.append(V("C16", grp, op, "left-equivariance", case["tags"], case["reqs"][k - 2], "avg(Z X_i) != Z avg(X_i)", d, tolq * sc))
         if op != "avg_w" and right_ok:
             d = oracle.maxdiff(g.T(mpl(mright)), Tm * TZ)
-            if d > tolq * s:
-                out.append(V("C16", grp, op, "right-equivariance", case["tags"], case["reqs"][k - 1], "avg(X_i Z) != avg(X_i) Z", d, tolq * s))
+            if d > tolq * sc:
+                out.append(V("C16", grp, op, "right-equivariance", case["tags"], case["reqs"][k - 1], "avg(X_i Z) != avg(X_i) Z", d, tolq * sc))
     return out
 
 
@@ -934,7 +975,7 @@ def j_c11(case, resps):
     subs = [parse(r) for r in resps[1:]]
     if vb is None:
         if all(v is not None for v, _ in subs):
-            out.append(V("C11", grp, op, "status", case["tags"], line, "bundle raised (%s) but every element succeeds" % resps[0][:40], float("inf"), 0))
+            out.append(V(case.get("prop", "C11"), grp, op, "status", case["tags"], line, "bundle raised (%s) but every element succeeds" % resps[0][:40], float("inf"), 0))
         return out
     if any(v is None for v, _ in subs):
         return out
@@ -953,7 +994,7 @@ def j_c11(case, resps):
         for k, (o, n) in enumerate(zip(offs, sizes)):
             sc = max([abs(x) for x in parts[k]] + [1.0])
             if not all(close(a, b, sc) for a, b in zip(got[o:o + n], parts[k])):
-                out.append(V("C11", grp, op, name, case["tags"], line, "%s of the bundle differs from element %d (%s) placed at offset %d" % (name, k, els[k], o), float("inf"), 0))
+                out.append(V(case.get("prop", "C11"), grp, op, name, case["tags"], line, "%s of the bundle differs from element %d (%s) placed at offset %d" % (name, k, els[k], o), float("inf"), 0))
                 return
 
     def check_mat(name, got, rkey, ckey, parts):
@@ -970,12 +1011,12 @@ def j_c11(case, resps):
                         blk = k
                 if blk is None:
                     if x != 0:
-                        out.append(V("C11", grp, op, name, case["tags"], line, "%s: entry (%d,%d) outside the diagonal blocks is %r, not an exact zero" % (name, i, j, x), abs(x), 0))
+                        out.append(V(case.get("prop", "C11"), grp, op, name, case["tags"], line, "%s: entry (%d,%d) outside the diagonal blocks is %r, not an exact zero" % (name, i, j, x), abs(x), 0))
                         return
                 else:
                     want = parts[blk][(i - ro[blk]) * cs[blk] + (j - co[blk])]
                     if not close(x, want, sc):
-                        out.append(V("C11", grp, op, name, case["tags"], line, "%s: block %d (%s) differs from the element's own result at (%d,%d)" % (name, blk, els[blk], i, j), abs(x - want), 0))
+                        out.append(V(case.get("prop", "C11"), grp, op, name, case["tags"], line, "%s: block %d (%s) differs from the element's own result at (%d,%d)" % (name, blk, els[blk], i, j), abs(x - want), 0))
                         return
 
     # split bundle output and the elements' outputs according to the shape
@@ -1267,7 +1308,10 @@ def cases_algo(prop, r, group, n, exe):
             so = None
             if it < 2:         # always: two clouds sharing one orientation, spread in position/velocity/time only
                 so, identical, radius, cnt = True, False, 0.5, r.choice([3, 5, 8])
-            X, pts, tags = l1.make_points(exe, r, group, cnt, radius, dbg, lin_only=("zero", "unit"), same_orientation=so)
+            lin = ("zero", "unit")
+            if it in (2, 3):   # always: two clouds far from the origin (the centre may be anywhere on the group)
+                lin, identical, radius, cnt, so = ("large",), False, r.choice([0.05, 0.3]), r.choice([3, 5, 8]), (it == 3)
+            X, pts, tags = l1.make_points(exe, r, group, cnt, radius, dbg, lin_only=lin, same_orientation=so)
             Z, tz = gen.element(r, group, norm="exact", lin_only=["zero", "unit"])
             perm = list(range(cnt))
             r.shuffle(perm)
@@ -1288,16 +1332,7 @@ def cases_algo(prop, r, group, n, exe):
                 res.append(vec[o:o + e[key]])
                 o += e[key]
             return res
-        OPS = {"exp": ("T", ("repsize", [("dof", "dof")])), "log": ("G", ("dof", [("dof", "dof")])),
-               "inverse": ("G", ("repsize", [("dof", "dof")])), "compose": ("GG", ("repsize", [("dof", "dof")] * 2)),
-               "between": ("GG", ("repsize", [("dof", "dof")] * 2)), "rplus": ("GT", ("repsize", [("dof", "dof")] * 2)),
-               "lplus": ("GT", ("repsize", [("dof", "dof")] * 2)), "rminus": ("GG", ("dof", [("dof", "dof")] * 2)),
-               "lminus": ("GG", ("dof", [("dof", "dof")] * 2)), "act": ("GP", ("dim", [("dim", "dof"), ("dim", "dim")])),
-               "adj": ("G", (None, [("dof", "dof")])), "rjac": ("T", (None, [("dof", "dof")])), "ljac": ("T", (None, [("dof", "dof")])),
-               "rjacinv": ("T", (None, [("dof", "dof")])), "ljacinv": ("T", (None, [("dof", "dof")])),
-               "smallAdj": ("T", (None, [("dof", "dof")])), "hat": ("T", (None, [("alg", "alg")])),
-               "transform": ("G", (None, [("tsize", "tsize")])), "innerWeights": ("", (None, [("dof", "dof")])),
-               "bracket": ("TT", ("dof", []))}
+        OPS = C11_OPS
         for e, nm in zip(E, els):
             e.setdefault("alg", l1.ALG[nm])
         for _ in range(n):
